@@ -648,7 +648,6 @@ func rsMember(s rangeset[int64], v int64) bool {
 //@   ensures  len(*s) == old(len(*s)) - (j - i)
 //@   ensures  forall k int :: 0 <= k && k < i ==> (*s)[k] == old((*s)[k])
 //@   ensures  forall k int :: i <= k && k < len(*s) ==> (*s)[k] == old((*s)[k + (j - i)])
-//@   ensures  forall k int :: j <= k && k < old(len(*s)) ==> (*s)[k - (j - i)] == old((*s)[k])
 //@   modifies *s, elems(*s)
 //@
 //@ func (*rangeset[int64]).insertrange(s, i, start, end)
@@ -657,7 +656,6 @@ func rsMember(s rangeset[int64], v int64) bool {
 //@   ensures  len(*s) == old(len(*s)) + 1 && (*s)[i].start == start && (*s)[i].end == end
 //@   ensures  forall k int :: 0 <= k && k < i ==> (*s)[k] == old((*s)[k])
 //@   ensures  forall k int :: i < k && k < len(*s) ==> (*s)[k] == old((*s)[k-1])
-//@   ensures  forall k int :: i <= k && k < old(len(*s)) ==> (*s)[k+1] == old((*s)[k])
 //@   modifies *s, elems(*s)
 //@
 //@ func (*rangeset[int64]).sub(s, start, end)
